@@ -128,6 +128,8 @@ class VTask(asyncio.Task):
             info = STATE["taskinfo"].get(id(self))
             if info:
                 emit("cancel" if info[0] == "job" else "hcancel", info[1])
+            elif id(self) == STATE.get("top_task"):
+                emit("topcancel", None)         # the user cancels the top-level run from outside
             STATE["cancelled"].add(id(self))
         return super().cancel(msg)
 
@@ -711,6 +713,7 @@ def run(sc, linger=None, shutdown_again=True):
     STATE["cancelled"] = set()
     STATE["timeout_ids"] = {}
     STATE["orch_ids"] = {}
+    STATE["top_task"] = None
     loop = VLoop()
     STATE["loop"] = loop
     asyncio.set_event_loop(loop)
@@ -756,6 +759,7 @@ def run(sc, linger=None, shutdown_again=True):
                     # for a run to end; whatever the properties say of "any exit path" applies
                     STATE["skip_next"] = True
                     t_run = asyncio.ensure_future(top.co_run())
+                    STATE["top_task"] = id(t_run)
                     loop.call_later(sc["cancel_top"], t_run.cancel)
                     try:
                         res["r"] = ("ret", await t_run)
